@@ -1399,6 +1399,67 @@ fn api_cmd(args: &[String]) {
             }
         }
     }
+    // ---- T6: the same predicate on an AAT font (morx + feat: one non-contextual subtable switched by `liga`): a glyph is
+    //      substituted iff its cluster lies in one of the ranges - with cluster numberings that have GAPS (byte offsets of
+    //      multi-byte text, every third number, squares), so that consecutive glyphs hop over whole ranges, both directions
+    {
+        use crate::fontgen::*;
+        let mut f = FontSpec::basic(8);
+        f.feat = Some(Feat { names: vec![FeatName { feature: 1, settings: vec![2, 3, 4, 5], exclusive: false, default_index: None }] });
+        let nonctx = MorxSubtable { coverage: 0, sub_feature_flags: 1, kind: MorxKind::NonContextual(AatLookup::new(6, (1..4u16).map(|g| (g, g + 3)).collect())) };
+        f.morx = Some(Morx { version: 2, chains: vec![MorxChain { default_flags: 0, features: vec![MorxFeature { feature_type: 1, feature_setting: 2, enable_flags: 1, disable_flags: 0xFFFF_FFFF }], subtables: vec![nonctx] }] });
+        let data = build(&f);
+        let face_h = Face::from_slice(&data, 0).expect("font H parses");
+        let tag = rustybuzz::ttf_parser::Tag::from_bytes(b"liga");
+        for k in 0..(nrand / 3).max(400) {
+            let n = 2 + r.below(5) as usize;
+            let gl: Vec<u32> = (0..n).map(|_| 1 + r.below(3) as u32).collect();
+            let cl: Vec<u32> = match r.below(5) {
+                0 => (0..n as u32).collect(),
+                1 => (0..n as u32).map(|i| 3 * i).collect(),
+                2 => (0..n as u32).map(|i| i * i + 1).collect(),
+                3 => { let mut c = 0u32; (0..n).map(|_| { let v = c; c += 1 + r.below(4) as u32; v }).collect() }
+                _ => (0..n as u32).map(|i| 2 * i + (i % 2)).collect(),
+            };
+            let maxc = *cl.iter().max().unwrap();
+            let nf = 1 + r.below(3) as usize;
+            let ranges: Vec<(u32, u32)> = (0..nf).map(|_| { let a = r.below(maxc as u64 + 2) as u32; (a, a + r.below((maxc + 3 - a) as u64) as u32) }).collect();
+            let feats: Vec<Feature> = ranges.iter().map(|(a, b)| Feature { tag, value: 1, start: *a, end: *b }).collect();
+            let dir = if k % 2 == 0 { Direction::LeftToRight } else { Direction::RightToLeft };
+            let mut b = UnicodeBuffer::new();
+            for (g, c) in gl.iter().zip(cl.iter()) {
+                b.add(char::from_u32(BASE_CP + g - 1).unwrap(), *c);
+            }
+            b.set_direction(dir);
+            b.set_script(rustybuzz::script::LATIN);
+            b.set_cluster_level(rustybuzz::BufferClusterLevel::MonotoneCharacters);
+            st.evals += 1;
+            let f2 = &face_h;
+            let fs = feats.clone();
+            let out = match catch(std::panic::AssertUnwindSafe(move || { let gb = rustybuzz::shape(f2, &fs, b); gb.glyph_infos().iter().map(|i| (i.glyph_id, i.cluster)).collect::<Vec<_>>() })) {
+                Ok(o) => o,
+                Err(e) => {
+                    st.bad += 1;
+                    println!("fail kind=shape-panic:{} font=H text={:?}", e, gl);
+                    continue;
+                }
+            };
+            let inside = |c: u32| ranges.iter().any(|(a, b)| *a <= c && c < *b);
+            let mut want: Vec<(u32, u32)> = gl.iter().zip(cl.iter()).map(|(g, c)| (if inside(*c) { *g + 3 } else { *g }, *c)).collect();
+            if dir == Direction::RightToLeft {
+                want.reverse();
+            }
+            if want.iter().any(|(g, _)| *g > 3) && want.iter().any(|(g, _)| *g <= 3) {
+                st.nontrivial += 1;
+            }
+            if out != want {
+                st.bad += 1;
+                if st.bad <= max_report {
+                    println!("fail kind=range-value-predicate font=H text={:?} clusters={:?} dir={:?} feats={} expected={:?} got={:?}", gl, cl, dir, feats.iter().map(fmt_feature).collect::<Vec<_>>().join(";"), want, out);
+                }
+            }
+        }
+    }
     println!("api-summary evaluations={} nontrivial={} bad={} t1={} t2={}", st.evals, st.nontrivial, st.bad, t1, st.evals - t1);
 }
 
